@@ -13,6 +13,9 @@ TYPES = {'Pid': 'erltf::types::ExternalPid', 'Port': 'erltf::types::ExternalPort
 RAW = 'local_ext_bytes'
 
 
+ID_TAGS_ALL = {88, 103, 89, 102, 120, 90, 114, 101}
+
+
 def run(ctx):
     P = ctx.P
     # ---------------- clause 1: capture ------------------------------------------------------------
@@ -120,8 +123,36 @@ def run(ctx):
                 base_, projs_ = unwrap(EB.origin_place(pl))
                 if any(isinstance(e, dict) and e.get('n') == RAW for e in (pl.get('p') or [])) or RAW in projs_:
                     guarded = True
+        # ... and only then: every write of the plain form lies behind the None edge of that very test.  A second condition on the
+        # Some side (a freshness heuristic, a length test) sends identifiers that do carry raw bytes down the plain path, hash lost.
+        escaped = None
         if ok and guarded:
-            ctx.ok('C10.2-replay', var, 'Some(bytes) => u8(121) bytes(%s)' % RAW, ctx.where(EB))
+            from ..wire import prim_of
+            for bb in sorted(EB.live_blocks()):
+                sd = EB.switch_on_discr(bb)
+                if not sd:
+                    continue
+                pl = sd[0]
+                base_, projs_ = unwrap(EB.origin_place(pl))
+                if not (any(isinstance(e, dict) and e.get('n') == RAW for e in (pl.get('p') or [])) or RAW in projs_):
+                    continue
+                none_t = [b_ for v_, b_ in sd[2] if v_ == 0]
+                some_t = [b_ for v_, b_ in sd[2] if v_ == 1]
+                none_t = none_t[0] if none_t else sd[3]
+                some_t = some_t[0] if some_t else sd[3]
+                from_some = EB.reachable(some_t)
+                for wb, wt in EB.calls():
+                    pr = prim_of(wt)
+                    if pr is not None and pr[0] == 'w' and wb in from_some:
+                        from ..wire import _val
+                        v_ = _val(EB, wt['args'][1]) if len(wt['args']) > 1 else None
+                        if isinstance(v_, int) and v_ != 121 and pr[1] == 'u8' and v_ in ID_TAGS_ALL:
+                            escaped = (wb, v_)
+        if ok and guarded and escaped:
+            ctx.bad('C10.2-replay', var, 'the plain form (tag %d) can be written although raw node-local bytes are present: the test that selects the replay has a further condition, and an identifier failing it '
+                    'is re-encoded from its parsed fields - the 8-byte hash of LOCAL_EXT is lost' % escaped[1], ctx.where(EB, escaped[0]), key='WIRE:%s%s:plain-form-with-raw-bytes' % (ENC, fn))
+        elif ok and guarded:
+            ctx.ok('C10.2-replay', var, 'Some(bytes) => u8(121) bytes(%s); the plain form is written only behind None' % RAW, ctx.where(EB))
         else:
             ctx.bad('C10.2-replay', var, 'replay path is not exactly `121, raw bytes` (events %s, selected by the Option=%s)' % ([e[:3] for e in raw], guarded), ctx.where(EB),
                     key='WIRE:%s%s:replay-shape' % (ENC, fn))
@@ -310,3 +341,10 @@ def run(ctx):
              'so an identifier received from a current OTP peer (SMALL_ATOM_UTF8_EXT for names up to 255 bytes) is written back byte for byte', floor=1)
     from ..etf import check_canonical_forms
     check_canonical_forms(ctx, 'C10.2-node-atom-form')
+
+    # "compare and hash by their logical fields": == must be plain field-wise equality, or Hash and Ord (which are) disagree with it
+    ctx.rule('C10.3-eq-hash-order-agree', 'the hand-written == of each identifier type is field-wise equality of the logical fields, hash reads no field == ignores and the order reads the fields == reads '
+             '(rule C11.3-eq-hash-fields re-run): a relaxed == (wildcards, prefixes) recognises "the same identifier" where HashMap, BTreeMap and the term-level comparison do not', floor=8)
+    from ..order import SubCtx as _Sub10
+    from . import c11 as _c11
+    _c11.run(_Sub10(ctx, 'C10.3-eq-hash-order-agree', 'c11', allow=('C11.3-eq-hash-fields',)))
